@@ -26,7 +26,7 @@ def snapshot(ds, sc):
     return {"rankings": rk, "e2i": sorted((key(e), i) for e, i in ds.mapping_elem_id.items()), "i2e": sorted((i, key(e)) for i, e in ds.mapping_id_elem.items()),
             "flags": (ds.is_complete, ds.without_ties, ds.name, ds.nb_elements, ds.nb_rankings), "universe": sorted(key(e) for e in ds.universe),
             "positions": ds.get_positions().tolist(), "bucket_ids": ds.get_bucket_ids().tolist(),
-            "scheme": [fork.lift(x).sexpr() for x in sc.b_vector + sc.t_vector], "scheme_ids": (id(sc.penalty_vectors), id(sc.b_vector), id(sc.t_vector))}
+            "scheme": [fork.lift(x).sexpr() for x in sc.b_vector + sc.t_vector]}
 
 
 def diff(a, b):
@@ -170,7 +170,7 @@ def run(run):
                   "sizes": "n <= 3, m <= 3 incl. empty rankings; plus n=4 datasets with a non-tieable component and a further element (ParCons sub-problems)"}
     run.assumptions = ["dataset shapes and operation sequences enumerated / sampled (declared enumeration), scheme symbolic",
                        "nondeterministic choices (pivots, ILP optimum) of the shared run are pinned in the fresh run",
-                       "snapshot = rankings, buckets, positions, domains, both id maps, flags, name, both matrices, penalty terms and list identities"]
+                       "snapshot = rankings, buckets, positions, domains, both id maps, flags, name, both matrices, penalty terms (by value)"]
     run.outside = ["sequences longer than 2 operations", "n > 3"]
     run.rule = "one item per (dataset, sequence); per path: snapshot comparison after every operation, shared vs fresh, repeat"
     run.pmap("monitor", item, items, chunksize=1)
